@@ -14,6 +14,7 @@ INSENSITIVE = {"len", "sorted", "min", "max", "sum", "any", "all", "set", "froze
 ORDER_CALLS = {"list", "tuple", "next", "iter", "enumerate", "zip", "reversed", "map", "filter", "chain",
                "itertools.chain", "deque", "str", "repr", "print"}
 COMMUTATIVE_METHODS = {"add", "remove", "discard", "update"}
+COPY_CONSTRUCTORS = {"Counter", "HashableCounter", "OrderedCounter", "dict", "list", "set", "copy", "deepcopy", "OrderedDict"}
 
 
 def ann_is_set(a):
@@ -318,6 +319,17 @@ def r07c(ctx):
             a = ann.get(root)
             atxt = ast.unparse(a) if a is not None else ""
             if any(x in atxt for x in ("Printer", "Formatter", "Writer", "BuildOptions", "HeapNode", "IO")):
+                continue
+            # the parameter name was rebound to a private copy (`to_set = HashableCounter(to_set)`) before this store
+            stmt_ = node
+            while stmt_ is not None and not isinstance(stmt_, ast.stmt):
+                stmt_ = parent(stmt_)
+            rebound_ = [s_ for s_ in walk_no_nested(f.node) if isinstance(s_, ast.Assign) and len(s_.targets) == 1
+                        and isinstance(s_.targets[0], ast.Name) and s_.targets[0].id == root and isinstance(s_.value, ast.Call)
+                        and (call_name(s_.value) or "").rsplit(".", 1)[-1] in COPY_CONSTRUCTORS]
+            if d == root and stmt_ is not None and any(r_.lineno < stmt_.lineno and _guard_subset(r_, stmt_) for r_ in rebound_):
+                n += 1
+                ctx.proved("R07c", f.file, f.short, node, d, f"`{root}` was rebound to a private copy under the same guard before this store")
                 continue
             n += 1
             attr = d.split(".")[-1] if isinstance(node, ast.Attribute) else "[...]"
